@@ -898,11 +898,11 @@ def conditions(tier, seed):
             add('sweep-optional[%03d:%s]' % (gi, grp[0].split('<')[0]), 'sweep',
                 'as sweep, optional parameters filled from the corpus; cases: ' + '; '.join(grp), 600,
                 labels=grp, kinds=['int', 'pair'], fill=True)
-    tsize = 8
+    tsize = 6
     for gi in range(0, len(TEMPLATES), tsize):
         grp = TEMPLATES[gi:gi + tsize]
         add('templates[%03d]' % gi, 'templates', 'N in [0,4], k in [0,3]; expressions: ' + ' | '.join(grp),
-            150 if q else 600, texts=grp)
+            300 if q else 900, texts=grp)
     # quota
     add('quota_unit', 'quota_unit', 'Q in [-1,400], counts in [-3,40], stubbed sizes in [0,200], quota as int or engine', t)
     for what in ('str', 'tuple'):
